@@ -312,6 +312,24 @@ WRITE_STATUS = {
                                 lambda r: ("exit status is %d, not 2, although a file could not be read" % r["rc"] if r["rc"] != 2 else
                                            "other file not formatted" if r["after"]["a.lua"][0].decode() != clireplay.FORMATTED else None)),
 }
+for _fmt in ("json",):      # (unified / summary are only accepted together with --check)
+    WRITE_STATUS[f"write-unreadable-status-{_fmt}"] = (
+        {"a.lua": clireplay.UNFORMATTED, "bin.lua": b"\xff\xfe local x = 1\n"}, ["--output-format", _fmt, "a.lua", "bin.lua"],
+        lambda r: ("exit status is %d, not 2, although a file could not be read" % r["rc"] if r["rc"] != 2 else
+                   "other file not formatted" if r["after"]["a.lua"][0].decode() != clireplay.FORMATTED else None))
+    WRITE_STATUS[f"write-unreadable-first-status-{_fmt}"] = (
+        {"z.lua": clireplay.UNFORMATTED, "bin.lua": b"\xff\xfe local x = 1\n"}, ["--output-format", _fmt, "--num-threads", "1", "bin.lua", "z.lua"],
+        lambda r: ("exit status is %d, not 2, although a file could not be read" % r["rc"] if r["rc"] != 2 else
+                   "other file not formatted" if r["after"]["z.lua"][0].decode() != clireplay.FORMATTED else None))
+    WRITE_STATUS[f"write-missing-path-status-{_fmt}"] = (
+        {"a.lua": clireplay.UNFORMATTED}, ["--output-format", _fmt, "a.lua", "no-such-file.lua"],
+        lambda r: ("exit status is %d, not 2, although a path does not exist" % r["rc"] if r["rc"] != 2 else
+                   "other file not formatted" if r["after"]["a.lua"][0].decode() != clireplay.FORMATTED else None))
+    WRITE_STATUS[f"write-broken-status-{_fmt}"] = (
+        {"a.lua": clireplay.UNFORMATTED, "bad.lua": clireplay.BROKEN}, ["--output-format", _fmt, "a.lua", "bad.lua"],
+        lambda r: ("exit status is %d, not 2, although a file failed to parse" % r["rc"] if r["rc"] != 2 else
+                   "unparseable file modified" if clireplay.changed(r, "bad.lua", True) else
+                   "other file not formatted" if r["after"]["a.lua"][0].decode() != clireplay.FORMATTED else None))
 CRASH = "local   y   =   0xffffffffffffffff\n"      # AstVerifier panics on a hex literal wider than i64 under --verify (pinned tree)
 
 
@@ -431,6 +449,51 @@ def loop_exits_join(ses, rep, funcs):
             if r == "sat":
                 bad.append((f"loop-exit/format/{b}->{c}", f"format() can return from inside the walker loop without pool.join() ({why}): the process exits while a worker "
                             "may be between truncating and writing a file", "abort"))
+    # what makes the loop end: besides the walker running out of entries, only the failure of a set-up / configuration / ignore-file call
+    # (the same sources format() may give up for) - anything else means ONE entry's trouble stops all the others
+    defs = {}
+    for bb_, sts in fn.blocks.items():
+        for s_ in sts:
+            if s_[0] == "call" and s_[1] is not None and not s_[1].proj:
+                defs.setdefault(s_[1].local, []).append(("call", canon(s_[2]), s_[3]))
+            elif s_[0] == "assign" and not s_[1].proj:
+                defs.setdefault(s_[1].local, []).append(("assign", s_[2]))
+    for b in sorted(loop, key=lambda x: int(x[2:])):
+        outs_ = [c for c in succ.get(b, []) if c not in loop and fn.blocks[c] and fn.blocks[c][-1][0] != "unreachable"]
+        if not outs_:
+            continue
+        sw = [s_ for s_ in fn.blocks[b] if s_[0] == "switch"]
+        src = None
+        if sw:
+            op = sw[-1][1]
+            loc = op[1].local if isinstance(op, tuple) and len(op) > 1 and hasattr(op[1], "local") else None
+            for _ in range(8):
+                ds = defs.get(loc, [])
+                if len(ds) != 1:
+                    break
+                d_ = ds[0]
+                if d_[0] == "call":
+                    last = d_[1].split("::")[-1]
+                    if last in ("context", "with_context", "map_err", "map", "into_result", "branch") and d_[2]:
+                        a0 = d_[2][0]
+                        loc = a0[1].local if isinstance(a0, tuple) and len(a0) > 1 and hasattr(a0[1], "local") else None
+                        continue
+                    src = d_[1]
+                    break
+                rv = d_[1]
+                if isinstance(rv, tuple) and rv[0] in ("discriminant",) and hasattr(rv[1], "local"):
+                    loc = rv[1].local
+                    continue
+                if isinstance(rv, tuple) and rv[0] == "use" and isinstance(rv[1], tuple) and len(rv[1]) > 1 and hasattr(rv[1][1], "local"):
+                    loc = rv[1][1].local
+                    continue
+                break
+        for c in outs_:
+            ok = src is not None and (src.endswith("Walk as Iterator>::next") or any(src.endswith(a) for a in EARLY_RETURN_SOURCES))
+            r, m = ses.obligation(f"loop-exit/format/{b}->{c}/cause/{(src or '?').split('::')[-1]}", [], z3.BoolVal(not ok),
+                                  "the walker loop ends when the walker is exhausted or a set-up / configuration / ignore-file call fails, never for one entry's own trouble")
+            if r == "sat":
+                bad.append((f"loop-exit/format/{b}->{c}/cause", f"the walker loop is left when {src or 'an unidentified test'} fails: one entry can stop the others", "early-return"))
     rep.bounds["walker_loop_blocks"] = len(loop)
     rep.bounds["walker_loop_exits"] = n
     if n < 1:
